@@ -1,7 +1,38 @@
-(* C19 - placeholder until Proofs/FilterFacts.v (split_array lemmas) is complete *)
-From Coq Require Import List ZArith.
-From MsmV Require Import Model.Filter.
+(* C19 - Command-line tools produce exactly what the API yields on the same files.
+   Partial: click, the file system and the figure code are outside the model.  The
+   commands are compositions of pieces whose theorems are in C05 (per-trajectory
+   coring, per_trajectory / coring_app), C16 (limits split: limits_pieces, reader
+   round trip) and C20 (per-column filter); proved here is the chunking helper. *)
+From Coq Require Import List ZArith Arith Bool.
+From MsmV Require Import Lib.Result Lib.PyList Model.Filter Model.Coring Model.TextIO
+  Proofs.FilterFacts Proofs.CoringFacts Proofs.TextIOFacts.
 Import ListNotations.
-Example chunks_example : split_array [1; 2; 3; 4; 5; 6; 7]%Z 3 = [[1; 2; 3]; [4; 5; 6]; [7]]%Z /\ split_array [1; 2; 3; 4]%Z 2 = [[1; 2]; [3; 4]]%Z.
+Local Open Scope nat_scope.
+
+(* figures: the state list is partitioned into consecutive chunks, none lost or repeated ... *)
+Theorem split_array_partition : forall (l : list Z) chunk, 1 <= chunk -> concat (split_array l chunk) = l.
+Proof. intros l chunk. apply split_array_concat. Qed.
+Print Assumptions split_array_partition.
+
+(* ... every chunk non-empty and of at most rows x cols states *)
+Theorem split_array_chunk_sizes : forall (l : list Z) chunk c, 1 <= chunk -> In c (split_array l chunk) ->
+  1 <= length c /\ length c <= chunk.
+Proof. intros l chunk c. apply split_array_sizes. Qed.
+Print Assumptions split_array_chunk_sizes.
+
+(* coring command: with a limits file every trajectory is cored on its own: the pieces given by
+   the limits are exactly the trajectories handed to the per-trajectory map *)
+Theorem cli_no_cross_boundary : forall (rows : list (list Z)) ls parts w iter,
+  split_limits rows (Some ls) = Ok parts ->
+  map (@length (list Z)) parts = ls /\ concat parts = rows /\
+  forall ts, core_stage w iter ts = mapM (fun t => core_single t w iter) ts.
+Proof.
+  intros rows ls parts w iter H. destruct (split_limits_spec rows ls parts H) as [H1 H2].
+  split; [exact H1|]. split; [exact H2|]. reflexivity.
+Qed.
+Print Assumptions cli_no_cross_boundary.
+
+Example chunks_example :
+  split_array [1; 2; 3; 4; 5; 6; 7]%Z 3 = [[1; 2; 3]; [4; 5; 6]; [7]]%Z /\ split_array [1; 2; 3; 4]%Z 2 = [[1; 2]; [3; 4]]%Z.
 Proof. vm_compute. split; reflexivity. Qed.
 Print Assumptions chunks_example.
